@@ -18,7 +18,7 @@ open Grevm.Block
 
 /-- The disjunction of `head_progress`: the action concerns transaction `i` (or is `finalize`). -/
 private def Concerns (i : TxId) (a : Act) : Prop :=
-  a = .finalize ∨ a = .claimExec i ∨ a = .claimVal i ∨ a = .execRead i ∨
+  a = .finalize ∨ a = .claimExec i ∨ a = .claimVal i ∨ a = .execRead i ∨ a = .execFetch i ∨
   a = .execFinish i ∨ (∃ l, a = .publishOne i l) ∨ a = .endPublish i ∨
   (∃ l, a = .removeOne i l) ∨ (∃ b, a = .recordResult i b) ∨
   (∃ l, a = .markOne i l) ∨ a = .endErrMark i ∨ a = .tailTs i ∨
@@ -62,6 +62,8 @@ private theorem head_enabled (P : Params) (s : State) (i1 : Inv1 P s) (i2 : Inv2
       split <;> exact ⟨_, rfl⟩
     | done w o => exact pack (.execFinish s.fin) (by simp [step, hp]) (by simp [Concerns])
     | fail e => exact pack (.execFinish s.fin) (by simp [step, hp]) (by simp [Concerns])
+  | fetching l k reads blocked =>
+    exact pack (.execFetch s.fin) (by simp [step, hp]) (by simp [Concerns])
   | publishing run todo nl =>
     cases todo with
     | nil => exact pack (.endPublish s.fin) (by simp [step, hp]) (by simp [Concerns])
@@ -121,7 +123,8 @@ theorem head_progress (P : Params) (s : State) (h : Reachable P s) (hn : s.com <
     (s.com = s.fin ∧ s.fin < P.n ∧
       ∃ a s', step P s a = some s' ∧
         (a = .finalize ∨ a = .claimExec s.fin ∨ a = .claimVal s.fin ∨ a = .execRead s.fin ∨
-         a = .execFinish s.fin ∨ (∃ l, a = .publishOne s.fin l) ∨ a = .endPublish s.fin ∨
+         a = .execFetch s.fin ∨ a = .execFinish s.fin ∨ (∃ l, a = .publishOne s.fin l) ∨
+         a = .endPublish s.fin ∨
          (∃ l, a = .removeOne s.fin l) ∨ (∃ b, a = .recordResult s.fin b) ∨
          (∃ l, a = .markOne s.fin l) ∨ a = .endErrMark s.fin ∨ a = .tailTs s.fin ∨
          a = .tailLts s.fin ∨ a = .valTs s.fin ∨ (∃ k, a = .valCheck s.fin k) ∨
